@@ -18,6 +18,8 @@
 //
 //	p_roundtrip img id|x      dir round trip == direct save (== img when "id": canonical, nothing
 //	                          compressed)
+//	p_paths img               every recorded ExtractPath is distinct and is a file on disk, and vice
+//	                          versa (covers FlashImage / FlashDescriptor / ME / raw regions)
 //	p_edit img kind k value   edit the k-th candidate field of summary.json (kind guid|ui|version|
 //	                          depex), save, reparse: exactly that field differs from the unedited
 //	                          round trip, and the image validates
@@ -103,38 +105,97 @@ func listFiles(dir string) []string {
 	return ps
 }
 
-func countPaths(f uefi.Firmware) int {
-	n := 0
+func countPaths(f uefi.Firmware) int { return len(allPaths(f)) }
+
+// allPaths lists the non-empty ExtractPath fields of a tree (flash-level nodes included).
+func allPaths(f uefi.Firmware) []string {
+	var out []string
 	add := func(p string) {
 		if p != "" {
-			n++
+			out = append(out, p)
 		}
 	}
 	switch x := f.(type) {
+	case *uefi.FlashImage:
+		add(x.ExtractPath)
+		out = append(out, allPaths(&x.IFD)...)
+		for _, r := range x.Regions {
+			out = append(out, allPaths(r.Value)...)
+		}
+	case *uefi.FlashDescriptor:
+		add(x.ExtractPath)
+	case *uefi.MERegion:
+		add(x.ExtractPath)
+	case *uefi.RawRegion:
+		add(x.ExtractPath)
 	case *uefi.BIOSRegion:
 		add(x.ExtractPath)
 		for _, e := range x.Elements {
-			n += countPaths(e.Value)
+			out = append(out, allPaths(e.Value)...)
 		}
 	case *uefi.BIOSPadding:
 		add(x.ExtractPath)
 	case *uefi.FirmwareVolume:
 		add(x.ExtractPath)
 		for _, y := range x.Files {
-			n += countPaths(y)
+			out = append(out, allPaths(y)...)
 		}
 	case *uefi.File:
 		add(x.ExtractPath)
 		for _, y := range x.Sections {
-			n += countPaths(y)
+			out = append(out, allPaths(y)...)
 		}
 	case *uefi.Section:
 		add(x.ExtractPath)
 		for _, y := range x.Encapsulated {
-			n += countPaths(y.Value)
+			out = append(out, allPaths(y.Value)...)
 		}
 	}
-	return n
+	return out
+}
+
+// p_paths img: every node that recorded an ExtractPath has a file of its own: the recorded paths are
+// pairwise distinct and are exactly the files on disk (implementation only; covers the flash-level
+// regions, which the model does not describe).
+func pPaths(args []string) string {
+	img := UnH(args[0])
+	if !parses(img) {
+		return "skip"
+	}
+	w, err := newWork(img)
+	if err != nil {
+		return "harness-error " + err.Error()
+	}
+	defer w.close()
+	if err := run(w.img, "extract", w.dir); err != nil {
+		return "FAIL extract-error " + oneLine(err.Error())
+	}
+	reset()
+	root, err := (&visitors.ParseDir{BasePath: w.dir}).Parse()
+	if err != nil {
+		return "FAIL load-error " + oneLine(err.Error())
+	}
+	seen := map[string]bool{}
+	for _, p := range allPaths(root) {
+		p = filepath.ToSlash(filepath.Clean(p))
+		if seen[p] {
+			return "FAIL two-nodes-share-extract-path " + p
+		}
+		seen[p] = true
+	}
+	for _, p := range listFiles(w.dir) {
+		if p == "summary.json" {
+			continue
+		}
+		if !seen[p] {
+			return "FAIL file-without-node " + p
+		}
+		delete(seen, p)
+	}
+	for p := range seen {
+		return "FAIL node-without-file " + p
+	}
+	return "ok"
 }
 
 func opXPaths(args []string) string {
@@ -957,6 +1018,119 @@ func countSections(img []byte) (files, ui, version, depex int) {
 	return
 }
 
+// genFlashImage builds an Intel flash image: descriptor block (signature at offset 16, descriptor map
+// at 20, region section at 0x40, master section at 0x80), a BIOS region holding optional padding and
+// one small FFS2 volume of the reference grammar, optionally GbE and PD raw regions, and 2-3 ranges
+// that no region entry covers (before / between / after the regions), of different lengths and filled
+// with distinct bytes.  fiano turns each uncovered range into a RawRegion of type Unknown.
+func genFlashImage(r *Rng) []byte {
+	const blk = 0x1000
+	type reg struct {
+		idx   int // index in the region section: 0 BIOS, 2 GbE, 3 PD
+		data  []byte
+		isGap bool
+	}
+	// BIOS region content
+	o := uefigen.Opts{MaxDepth: r.Pick(0, 0, 1), Strings: true, Alignments: false}
+	var bios []byte
+	for tries := 0; ; tries++ {
+		v := uefigen.GenVol(r.Fork(uint64(tries)), o, 0)
+		vb, _ := uefigen.EmitVol(v)
+		if len(vb) <= 2*blk-64 || tries > 20 {
+			if r.Bool() {
+				bios = append(bios, genPadFF(r, 8*r.Range(1, 6))...)
+			}
+			bios = append(bios, vb...)
+			break
+		}
+	}
+	for len(bios)%blk != 0 {
+		bios = append(bios, 0xFF)
+	}
+	gap := func(k int) reg {
+		n := blk * r.Range(1, 2)
+		if k == 1 {
+			n = blk * 3
+		}
+		d := make([]byte, n)
+		fill := byte(0x11 * (k + 1))
+		for i := range d {
+			d[i] = fill ^ byte(i*7)
+		}
+		return reg{isGap: true, data: d}
+	}
+	raw := func(idx int) reg { return reg{idx: idx, data: r.Bytes(blk * r.Range(1, 2))} }
+	regs := []reg{{idx: 0, data: bios}}
+	if r.Bool() {
+		regs = append(regs, raw(2))
+	}
+	if r.Chance(1, 3) {
+		regs = append(regs, raw(3))
+	}
+	// shuffle the regions, then put gaps: always at least two
+	for i := len(regs) - 1; i > 0; i-- {
+		j := r.Intn(i + 1)
+		regs[i], regs[j] = regs[j], regs[i]
+	}
+	var layout []reg
+	ngap := 0
+	for i, x := range regs {
+		if r.Chance(2, 3) || (i == 0 && len(regs) == 1) {
+			layout = append(layout, gap(ngap))
+			ngap++
+		}
+		layout = append(layout, x)
+	}
+	for ngap < 2 || r.Chance(1, 3) && ngap < 3 {
+		// a trailing gap; a second trailing gap would merge with the first, so only one
+		if len(layout) > 0 && layout[len(layout)-1].isGap {
+			break
+		}
+		layout = append(layout, gap(ngap))
+		ngap++
+	}
+	if ngap < 2 {
+		// the only free place left is the front
+		layout = append([]reg{gap(ngap)}, layout...)
+	}
+	img := make([]byte, blk)
+	for i := range img {
+		img[i] = 0xFF
+	}
+	copy(img[16:], []byte{0x5a, 0xa5, 0xf0, 0x0f})
+	// descriptor map: ComponentBase, chips, RegionBase=4 (0x40), NumberOfRegions=0 (all), MasterBase=8 (0x80), ...
+	copy(img[20:], []byte{3, 0, 4, 0, 8, 1, 0x10, 0, 0x20, 0, 0, 0, 0, 0, 0, 0})
+	for i := 0x40; i < 0x80; i++ {
+		img[i] = 0
+	}
+	for i := 0; i < 15; i++ { // unused entries: base 0x7FFF, limit 0
+		img[0x44+4*i], img[0x45+4*i] = 0xFF, 0x7F
+	}
+	for i := 0x80; i < 0x100; i++ {
+		img[i] = byte(i)
+	}
+	off := 1
+	for _, x := range layout {
+		nb := len(x.data) / blk
+		if !x.isGap {
+			e := 0x44 + 4*x.idx
+			img[e], img[e+1] = byte(off), byte(off>>8)
+			img[e+2], img[e+3] = byte(off+nb-1), byte((off+nb-1)>>8)
+		}
+		img = append(img, x.data...)
+		off += nb
+	}
+	return img
+}
+
+func genPadFF(r *Rng, n int) []byte {
+	b := make([]byte, n)
+	for i := range b {
+		b[i] = 0xFF
+	}
+	return b
+}
+
 func hasFlashSig(b []byte) bool {
 	sig := []byte{0x5a, 0xa5, 0xf0, 0x0f}
 	return len(b) >= 20 && (bytes.Equal(b[16:20], sig) || bytes.Equal(b[0:4], sig))
@@ -1010,11 +1184,23 @@ func gen(r *Rng, tier string, emit Emit) {
 			break
 		}
 		emit("P", "p_roundtrip", H(b), "x")
+		emit("P", "p_paths", H(b))
 		if len(b) <= 8192 && !hasFlashSig(b) {
 			emitTables(emit, b)
 			emit("C", "xpaths", H(b))
 			emit("C", "dirsave", H(b))
 		}
+	}
+	// Intel flash images with 2-3 ranges not covered by any region entry (implementation oracles only:
+	// the flash level is not modelled)
+	nflash := 12
+	if tier == "thorough" {
+		nflash = 300
+	}
+	for i := 0; i < nflash; i++ {
+		img := genFlashImage(r.Fork(uint64(2000000 + i)))
+		emit("P", "p_roundtrip", H(img), "id")
+		emit("P", "p_paths", H(img))
 	}
 	for it := 0; it < n; it++ {
 		rr := r.Fork(uint64(it))
@@ -1114,5 +1300,6 @@ func main() {
 	Register("guidparse", opGUIDParse)
 	Register("p_roundtrip", pRoundTrip)
 	Register("p_edit", pEdit)
+	Register("p_paths", pPaths)
 	Main(gen)
 }
